@@ -46,7 +46,9 @@ func (l *RandomLayout) TrailingSpaces() int {
 	return 1 + l.n(2, "trailN")
 }
 
-var commentTexts = []string{"// note", "//", "// let x = 1", "/* block */", "/* if a then */", "// |> not code", "/**/", "// \"quote", "/* a\n   b */"}
+// the multi-line one stays last (TrailingComment never picks it)
+var commentTexts = []string{"// note", "//", "// let x = 1", "/* block */", "/* if a then */", "// |> not code", "/**/", "// \"quote",
+	"/*/ note */", "/*/ let y = 2 /**/", "/***/", "/* * / */", "/* // */", "// /* not open", "/* a\n   b */"}
 
 func (l *RandomLayout) OwnLineComment() string {
 	if l.n(8, "ownCommentP") != 0 {
